@@ -70,7 +70,7 @@ def _entangling_features(r):
 
 @st.composite
 def _dm_case(draw, qudits=False):
-    r = draw(MC.meas_circuit_recipes(max_w=3, max_ops=9, qudits=qudits, channels=True, max_branches=16))
+    r = draw(MC.meas_circuit_recipes(max_w=3, max_ops=9, qudits=qudits, channels=True, max_branches=16, pauli_meas=False))
     n = len(r["dims"])
     r["order"] = list(draw(st.permutations(list(range(n)))))
     r["split"] = draw(st.booleans())
@@ -231,7 +231,7 @@ KNOWN_FEATURES = {
 
 @st.composite
 def _traj_case(draw):
-    r = draw(MC.meas_circuit_recipes(max_w=3, max_ops=8, channels=True, max_branches=8, confusion=False))
+    r = draw(MC.meas_circuit_recipes(max_w=3, max_ops=8, channels=True, max_branches=8, confusion=False, pauli_meas=False))
     n = len(r["dims"])
     r["order"] = list(draw(st.permutations(list(range(n)))))
     r["split"] = draw(st.booleans())
@@ -353,7 +353,7 @@ def _reps_strategy():
 @st.composite
 def _noise_case(draw):
     r = draw(MC.meas_circuit_recipes(max_w=3, max_ops=7, channels=False, max_branches=4, confusion=False, conds=False, resets=False,
-                                     qkinds=["line", "grid", "named"]))
+                                     qkinds=["line", "grid", "named"], pauli_meas=False))
     n = len(r["dims"])
     r["order"] = list(draw(st.permutations(list(range(n)))))
     r["virtual"] = draw(st.lists(st.booleans(), min_size=len(r["ops"]), max_size=len(r["ops"])))
